@@ -171,3 +171,36 @@ func VH_C01_two_collections() {
 	vhCheckReads("C01.two.a", db, rows)
 	vhRichReads("C01.two.b", db, rich)
 }
+
+// VH_C01_strings: strings are data: whatever valid UTF-8 a string field
+// holds — control characters, quotes, backslashes, line separators, HTML
+// characters, runes outside the BMP, private-use and tag characters — the
+// write is accepted, every read returns the same bytes on the same handle and
+// after a restart, searches on the indexed field find it, and Control is
+// silent.  (Concrete strings; the symbolic harnesses cover ASCII letters.)
+func VH_C01_strings() {
+	cfg := vhPickCfg()
+	db, root := vhOpenDB(cfg)
+	specials := []string{
+		"\x01", "\x1b[31mred\x1b[0m", "\x7f", "a\vb\ac", "tab\tnl\ncr\r", "q\"uote\\back", "<&>",
+		"  ", "é漢😀", "\U000e0001tag", "\U000f0001pua", "",
+	}
+	sv := specials[vChoice("s", len(specials))]
+	o := &vObj{A: 1, S: sv, U: 1}
+	vAssert("C01.strings.insert", db.InsertOrUpdate(o) == nil)
+	o2 := &vObj{A: 2, S: "plain", U: 2}
+	vAssert("C01.strings.insert_other", db.InsertOrUpdate(o2) == nil)
+	rows := []vhRow{{o.UUID(), *o}, {o2.UUID(), *o2}}
+	vhCheckReads("C01.strings.same_handle", db, rows)
+	s := db.Search(&vObj{}, "S", "=", sv)
+	vAssert("C01.strings.search", s.Err() == nil && s.Len() == 1)
+	if cfg.async {
+		vAssert("C01.strings.flush", db.FlushAllAndCommit(&vObj{}) == nil)
+	}
+	vAssert("C01.strings.control", db.Control() == nil)
+	db = vhReopen(db, root)
+	vhCheckReads("C01.strings.reopened", db, rows)
+	s = db.Search(&vObj{}, "S", "=", sv)
+	vAssert("C01.strings.search_reopened", s.Err() == nil && s.Len() == 1)
+	vAssert("C01.strings.control_reopened", db.Control() == nil)
+}
